@@ -41,7 +41,7 @@ def case_st(draw):
     ndims = draw(st.sampled_from([(3,), (3,), (3,), (1, 2)]))
     case = draw(rc.output_cases(ndims=ndims, min_cpu=2, max_cpu=9, with_part=False, with_sink=False, min_levels=1))
     case["ordering"] = draw(st.sampled_from(["hilbert", "hilbert", "hilbert", "planar"]))
-    case["key_mode"] = draw(st.sampled_from(["uniform", "random", "random", "random", "clustered", "cube"]))
+    case["key_mode"] = draw(st.sampled_from(["uniform", "random", "random", "tail", "head", "clustered", "cube", "tail"]))
     case["max_cells"] = 2000
     case["use_minus1"] = False
     case["nboundary"] = draw(st.sampled_from([0, 0, 0, 2]))
